@@ -118,7 +118,7 @@ type zvDelegate struct {
 	idx  uint64
 	conf *Config
 
-	initialised bool        // a root set has been stored at least once
+	initialised bool // a root set has been stored at least once
 	checkedOnce bool
 	log         []string    // CA commands seen (witness)
 	harvest     []zvHarvest // (key, root cert) pairs the built-in provider persisted
@@ -248,13 +248,13 @@ func (d *zvDelegate) applyObserved(req *structs.CARequest, origin string) any {
 // ---------------------------------------------------------------------------------------------
 
 type zvEnv struct {
-	run     *core.Run
-	name    string
-	d       *zvDelegate
-	m       *CAManager
-	serials map[string]string // leaf serial -> case that got it
-	caState int               // ordinal of the CA state (bumped by every command that changed something)
-	cfg     map[string]interface{}
+	run           *core.Run
+	name          string
+	d             *zvDelegate
+	m             *CAManager
+	serials       map[string]string // leaf serial -> case that got it
+	caState       int               // ordinal of the CA state (bumped by every command that changed something)
+	cfg           map[string]interface{}
 	xsignDisabled bool
 }
 
